@@ -37,7 +37,7 @@ let fos s = match s with "inf" -> infinity | "-inf" -> neg_infinity | "nan" | "-
 
 (* ---- state model ---- *)
 type ctx = { simplex : bool; cp : int; ncl : int; n : int; cc : float; k0 : float array array;
-             mrows : (nat * float) list array; mdefs : float array }
+             mrows : (nat * float) list array; mdefs : float array; nurows : (nat * float) list array; mutable ylab : int array }
 let ctx = ref None
 let cur : float mst option ref = ref None
 let tab_f (a : float array) : nat -> float = fun i -> let i = int_of_nat i in if i < Array.length a then a.(i) else 0.0
@@ -84,7 +84,16 @@ let handle_m (t : string array) =
       for _ = 1 to sz do es := (nat_of_int (i !p), f (!p + 1)) :: !es; p := !p + 2 done;
       mrows.(r) <- List.rev !es
     done;
-    ctx := Some { simplex; cp; ncl; n; cc; k0; mrows; mdefs }; cur := None
+    let nurows =
+      if !p < Array.length t && t.(!p) = "N" then begin
+        incr p; let nr = i !p in incr p;
+        Array.init nr (fun _ ->
+          let sz = i !p in incr p;
+          let es = ref [] in
+          for _ = 1 to sz do es := (nat_of_int (i !p), f (!p + 1)) :: !es; p := !p + 2 done;
+          List.rev !es)
+      end else [||] in
+    ctx := Some { simplex; cp; ncl; n; cc; k0; mrows; mdefs; nurows; ylab = [||] }; cur := None
   | "MK" -> ()
   | _ ->
     let c = match !ctx with Some c -> c | None -> failwith "state line before MH" in
@@ -95,6 +104,7 @@ let handle_m (t : string array) =
     (match t.(0) with
      | "MI" ->
        let y = Array.init c.n (fun e -> i (2 + e)) in
+       c.ylab <- y;
        let lin = Array.init c.n (fun e -> Array.init c.cp (fun p -> f (2 + c.n + e * c.cp + p))) in
        let lin0 e p = let e = int_of_nat e and p = int_of_nat p in if e < c.n && p < c.cp then lin.(e).(p) else 0.0 in
        print_state t.(1) c (init_state fops np ncl nn mrow mdef k0 (tab_n y) lin0)
@@ -138,7 +148,16 @@ let handle_m (t : string array) =
          | "addlin" ->
            let d = Array.init c.n (fun e -> Array.init c.cp (fun p -> f (3 + e * c.cp + p))) in
            MAddLin (fun e p -> let e = int_of_nat e and p = int_of_nat p in if e < c.n && p < c.cp then d.(e).(p) else 0.0)
+         | "biasupd" -> MUnshrink   (* handled below *)
          | x -> failwith ("unknown operation " ^ x) in
+       if t.(2) = "biasupd" then begin
+         (* MO id biasupd step[K] B bias[K]  -> MS line of the state after performBiasUpdate, followed by " B bias'[K]" *)
+         let k = c.ncl in
+         let step = Array.init k (fun j -> f (3 + j)) and bias = Array.init k (fun j -> f (4 + k + j)) in
+         let nurow r = let r = int_of_nat r in if r < Array.length c.nurows then c.nurows.(r) else [] in
+         let (s', b') = bias_update fops np nn nurow (tab_n c.ylab) (s, tab_f bias) (tab_f step) in
+         print_state_x t.(1) c s' (" B" ^ String.concat "" (List.init k (fun j -> " " ^ pf (b' (nat_of_int j)))))
+       end else
        print_state t.(1) c (mstep fops lowest tiny np ncl nn c.cc mrow mdef k0 c.simplex !shrinking s op)
      | _ -> ())
 
